@@ -312,58 +312,148 @@ Proof.
   change [rerank rho h] with (map (rerank rho) [h]). rewrite rr_fclosure. rewrite forallb_map'. reflexivity.
 Qed.
 
-Lemma rr_step_spec : forall rho eqg results mine,
-  M13.fr_step_spec eqg (map (rerank rho) results) (map (rerank rho) mine)
-  = let '(r, m, app) := M13.fr_step_spec eqg results mine in (map (rerank rho) r, map (rerank rho) m, app).
+(* ---- every function of the filter_results model but rank_order ignores the rank: it commutes with rerank *)
+Module P13 := C13.Proofs.
+Lemma rr_fadd : forall rho x S, M13.fadd (rerank rho x) (map (rerank rho) S) = map (rerank rho) (M13.fadd x S).
+Proof. intros rho x S. unfold M13.fadd. rewrite rr_fmem. destruct (M13.fmem x S); [reflexivity|]. rewrite map_app. reflexivity. Qed.
+
+Lemma rr_touches : forall rho a b g, M13.touches (rerank rho a) (rerank rho b) (map (rerank rho) g) = M13.touches a b g.
+Proof. intros. unfold M13.touches. rewrite !rr_fmem. reflexivity. Qed.
+
+Lemma rr_fupdate : forall rho o g, M13.fupdate (map (rerank rho) g) (map (rerank rho) o) = map (rerank rho) (M13.fupdate g o).
 Proof.
-  intros rho eqg results mine. unfold M13.fr_step_spec.
-  assert (Ec : M13.competing eqg (map (rerank rho) mine) = M13.competing eqg mine).
-  { unfold M13.competing. rewrite map_map. reflexivity. }
-  rewrite Ec. destruct (M13.competing eqg mine); [|reflexivity].
-  assert (Ek : filter (M13.comp_best (map (rerank rho) mine)) (map (rerank rho) mine) = map (rerank rho) (filter (M13.comp_best mine) mine)).
-  { rewrite filter_map_comm. f_equal. apply filter_ext. intros x. apply rr_comp_best. }
-  assert (Ed : filter (fun h => negb (M13.comp_best (map (rerank rho) mine) h)) (map (rerank rho) mine)
-               = map (rerank rho) (filter (fun h => negb (M13.comp_best mine h)) mine)).
-  { rewrite filter_map_comm. f_equal. apply filter_ext. intros x. rewrite rr_comp_best. reflexivity. }
-  rewrite Ek, Ed. f_equal; [f_equal|].
-  - rewrite filter_map_comm. f_equal. apply filter_ext. intros x. rewrite rr_fmem. reflexivity.
-  - unfold M13.fwf, M13.distinct_scores. rewrite !map_map. rewrite forallb_map'. reflexivity.
+  intros rho. unfold M13.fupdate. induction o as [|x o IH]; intros g; cbn [map fold_left]; [reflexivity|].
+  rewrite rr_fadd. apply IH.
 Qed.
 
-(* the hits kept by filter_results for a gene are the same for every memory layout, provided the gene's hits have
-   pairwise distinct bitscores *)
+Lemma rr_fold_fupdate : forall rho L acc,
+  fold_left M13.fupdate (map (map (rerank rho)) L) (map (rerank rho) acc) = map (rerank rho) (fold_left M13.fupdate L acc).
+Proof. intros rho. induction L as [|g L IH]; intros acc; cbn [map fold_left]; [reflexivity|]. rewrite rr_fupdate. apply IH. Qed.
+
+Lemma rr_unite : forall rho a b gs,
+  M13.unite_groups (rerank rho a) (rerank rho b) (map (map (rerank rho)) gs)
+  = option_map (map (map (rerank rho))) (M13.unite_groups a b gs).
+Proof.
+  intros rho a b. induction gs as [|g gs IH]; cbn [map M13.unite_groups]; [reflexivity|].
+  rewrite rr_touches. destruct (M13.touches a b g).
+  - cbn [option_map map]. f_equal. f_equal.
+    + rewrite filter_map_comm.
+      rewrite (filter_ext (fun x => M13.touches (rerank rho a) (rerank rho b) (map (rerank rho) x)) (M13.touches a b))
+        by (intros x; apply rr_touches).
+      rewrite !rr_fadd. apply rr_fold_fupdate.
+    + rewrite filter_map_comm. f_equal. apply filter_ext. intros x. rewrite rr_touches. reflexivity.
+  - rewrite IH. destruct (M13.unite_groups a b gs); reflexivity.
+Qed.
+
+Lemma rr_pstep : forall rho h gs o,
+  P13.fr_pstep (rerank rho h) (map (map (rerank rho)) gs) (rerank rho o) = map (map (rerank rho)) (P13.fr_pstep h gs o).
+Proof.
+  intros rho h gs o. unfold P13.fr_pstep. change (M13.fov (rerank rho h) (rerank rho o)) with (M13.fov h o).
+  destruct (M13.fov h o); [|reflexivity]. rewrite rr_unite. destruct (M13.unite_groups h o gs); cbn [option_map]; [reflexivity|].
+  rewrite map_app. reflexivity.
+Qed.
+
+Lemma rr_groups : forall rho cds, P13.fr_groups (map (rerank rho) cds) = map (map (rerank rho)) (P13.fr_groups cds).
+Proof.
+  intros rho cds. unfold P13.fr_groups.
+  assert (Inner : forall h os gs, fold_left (P13.fr_pstep (rerank rho h)) (map (rerank rho) os) (map (map (rerank rho)) gs)
+                                  = map (map (rerank rho)) (fold_left (P13.fr_pstep h) os gs)).
+  { intros h. induction os as [|o os IH]; intros gs; cbn [map fold_left]; [reflexivity|]. rewrite rr_pstep. apply IH. }
+  assert (Outer : forall hs gs,
+            fold_left (fun gs h => fold_left (P13.fr_pstep h) (map (rerank rho) cds) gs) (map (rerank rho) hs) (map (map (rerank rho)) gs)
+            = map (map (rerank rho)) (fold_left (fun gs h => fold_left (P13.fr_pstep h) cds gs) hs gs)).
+  { induction hs as [|h hs IH]; intros gs; cbn [map fold_left]; [reflexivity|]. rewrite Inner. apply IH. }
+  exact (Outer cds []).
+Qed.
+
+Lemma rr_hit_order : forall rho mine g,
+  M13.hit_order (map (rerank rho) mine) (map (rerank rho) g) = map (rerank rho) (M13.hit_order mine g).
+Proof. intros. unfold M13.hit_order. rewrite filter_map_comm. f_equal. apply filter_ext. intros x. apply rr_fmem. Qed.
+
+Lemma rr_best_of : forall rho l, M13.best_of (map (rerank rho) l) = option_map (rerank rho) (M13.best_of l).
+Proof.
+  intros rho l. unfold M13.best_of. destruct l as [|b r]; [reflexivity|]. cbn [map option_map]. f_equal.
+  change (rerank rho b :: map (rerank rho) r) with (map (rerank rho) (b :: r)).
+  generalize (b :: r) as l. generalize b as b0. clear b r.
+  intros b0 l. revert b0. induction l as [|h l IH]; intros b0; cbn [map fold_left]; [reflexivity|].
+  change (M13.f_sc (rerank rho b0) <? M13.f_sc (rerank rho h)) with (M13.f_sc b0 <? M13.f_sc h).
+  destruct (M13.f_sc b0 <? M13.f_sc h); apply IH.
+Qed.
+
+Lemma existsb_perm {A} (f : A -> bool) : forall l l', Permutation l l' -> existsb f l = existsb f l'.
+Proof.
+  intros l l' H. apply eq_true_iff_eq. rewrite !existsb_exists.
+  split; intros [x [Hx Hf]]; exists x; (split; [|exact Hf]);
+    [apply (Permutation_in _ H)|apply (Permutation_in _ (Permutation_sym H))]; exact Hx.
+Qed.
+
+Lemma rr_dead : forall rho mine g r,
+  P13.fr_dead (map (rerank rho) mine) (map (rerank rho) g) (rerank rho r) = P13.fr_dead mine g r.
+Proof.
+  intros rho mine g r. unfold P13.fr_dead, P13.gbest. rewrite rr_hit_order, rr_best_of.
+  destruct (M13.best_of (M13.hit_order mine g)) as [b|]; cbn [option_map]; [|reflexivity].
+  unfold M13.rank_order.
+  rewrite (existsb_perm _ _ _ (sort_by_perm _ (map (rerank rho) g))), (existsb_perm _ _ _ (sort_by_perm _ g)).
+  rewrite existsb_map'. reflexivity.
+Qed.
+
+Lemma existsb_ext' {A} (f g : A -> bool) : (forall x, f x = g x) -> forall l, existsb f l = existsb g l.
+Proof. intros H. induction l as [|x l IH]; cbn [existsb]; [reflexivity|]. rewrite H, IH. reflexivity. Qed.
+
+Lemma rr_keep : forall rho mine r, P13.fr_keep (map (rerank rho) mine) (rerank rho r) = P13.fr_keep mine r.
+Proof.
+  intros rho mine r. unfold P13.fr_keep, P13.fr_bad. rewrite rr_groups. rewrite existsb_map'. f_equal.
+  apply existsb_ext'. intros g. apply rr_dead.
+Qed.
+
+(* the hits kept by filter_results for a gene are the same for every memory layout - for EVERY input of the domain,
+   score ties included (since the repair of filter_results_score_tie_set_order) - and the call does not raise *)
 Lemma filter_gene_layout_proof : forall eqg results mine rho rho',
-  M13.fwf mine = true -> M13.distinct_scores mine = true ->
+  M13.fwf mine = true ->
   filter_gene_o rho eqg results mine = filter_gene_o rho' eqg results mine /\
   exists r m, filter_gene_o rho eqg results mine = Ok (r, m).
 Proof.
-  intros eqg results mine rho rho' Hw Hd.
-  assert (Hspec : forall r, exists rem,
-            M13.fr_cds eqg (Ok (map (rerank r) results, [])) (map (rerank r) mine)
-            = (Ok (map (rerank r) (fst (fst (M13.fr_step_spec eqg results mine))), rem),
-               map (rerank r) (snd (fst (M13.fr_step_spec eqg results mine))))).
-  { intros r. pose proof (rr_step_spec r eqg results mine) as E.
-    destruct (M13.fr_step_spec eqg results mine) as [[r0 m0] app0] eqn:E0. cbn [fst snd].
-    assert (Happ : app0 = true).
-    { unfold M13.fr_step_spec in E0. destruct (M13.competing eqg mine); inversion E0; [rewrite Hw, Hd|]; reflexivity. }
-    apply (C13.Proofs.fr_cds_meets_spec eqg _ [] _ _ _ app0 E Happ). intros i []. }
+  intros eqg results mine rho rho' Hw.
   assert (Hid : forall r l, map M13.f_id (map (rerank r) l) = map M13.f_id l) by (intros r l; rewrite map_map; reflexivity).
-  unfold filter_gene_o.
-  destruct (Hspec rho) as [rem1 E1]. destruct (Hspec rho') as [rem2 E2]. rewrite E1, E2. rewrite !Hid.
-  split; [reflexivity|]. eexists. eexists. reflexivity.
+  assert (Hform : forall r, filter_gene_o r eqg results mine
+            = Ok (if M13.competing eqg mine then (map M13.f_id (filter (P13.fr_keep mine) results), map M13.f_id (filter (P13.fr_keep mine) mine))
+                  else (map M13.f_id results, map M13.f_id mine))).
+  { intros r. unfold filter_gene_o.
+    assert (Ec : M13.competing eqg (map (rerank r) mine) = M13.competing eqg mine).
+    { unfold M13.competing. rewrite map_map. reflexivity. }
+    assert (Ew : M13.fwf (map (rerank r) mine) = true).
+    { rewrite <- Hw. unfold M13.fwf. rewrite !map_map. rewrite forallb_map'. reflexivity. }
+    destruct (M13.competing eqg mine) eqn:Ecm.
+    - destruct (P13.fr_cds_survivors eqg (map (rerank r) results) [] (map (rerank r) mine) Ew Ec) as [rem E]; [intros i []|].
+      rewrite E.
+      assert (EK : forall l, filter (P13.fr_keep (map (rerank r) mine)) (map (rerank r) l) = map (rerank r) (filter (P13.fr_keep mine) l)).
+      { intros l. rewrite filter_map_comm. f_equal. apply filter_ext. intros x. apply rr_keep. }
+      rewrite !EK.
+      assert (Hne : filter (P13.fr_keep mine) mine <> []).
+      { apply P13.fr_some_survivor; [exact Hw|]. intros ->. cbv in Ecm. discriminate. }
+      destruct (filter (P13.fr_keep mine) mine) as [|k kt] eqn:EF; [contradiction|].
+      cbn [map]. rewrite !Hid. reflexivity.
+    - rewrite (P13.fr_cds_not_competing eqg _ _ Ec). rewrite !Hid. reflexivity. }
+  rewrite (Hform rho), (Hform rho'). split; [reflexivity|].
+  destruct (M13.competing eqg mine); eexists; eexists; reflexivity.
 Qed.
 
-(* ... and follow the layout when two overlapping hits of competing profiles tie on the bitscore (finding
-   filter_results_score_tie_set_order): same input, ranks swapped, the other hit survives *)
+(* the former witness of filter_results_score_tie_set_order: two overlapping hits of competing profiles tie on the bitscore.
+   The code before the repair (`best = list(group)[0]`) kept the one the layout put first; the repaired code keeps the one
+   listed first in the gene's hit list under both layouts *)
 Definition w_f1 := M13.mkFH 0 0 10 200 100 0.
 Definition w_f2 := M13.mkFH 1 1 10 200 100 0.
-Lemma filter_gene_tie_refuted_proof : exists eqg results mine rho rho',
-  M13.fwf mine = true /\ NoDup (map M13.f_id mine) /\
-  filter_gene_o rho eqg results mine <> filter_gene_o rho' eqg results mine.
+Lemma filter_gene_tie_witness_proof :
+  M13.fwf [w_f1; w_f2] = true /\ NoDup (map M13.f_id [w_f1; w_f2]) /\
+  filter_gene_unrepaired (fun i => i) [0; 1] [w_f1; w_f2] [w_f1; w_f2]
+    <> filter_gene_unrepaired (fun i => 1 - i) [0; 1] [w_f1; w_f2] [w_f1; w_f2] /\
+  filter_gene_o (fun i => i) [0; 1] [w_f1; w_f2] [w_f1; w_f2] = Ok ([0], [0]) /\
+  filter_gene_o (fun i => 1 - i) [0; 1] [w_f1; w_f2] [w_f1; w_f2] = Ok ([0], [0]) /\
+  filter_gene_o (fun i => i) [0; 1] [w_f2; w_f1] [w_f2; w_f1] = Ok ([1], [1]).
 Proof.
-  exists [0; 1], [w_f1; w_f2], [w_f1; w_f2], (fun i => i), (fun i => 1 - i).
-  split; [vm_compute; reflexivity|]. split; [|vm_compute; discriminate].
-  cbn. constructor; [intros [H|[]]; discriminate|constructor; [intros []|constructor]].
+  split; [vm_compute; reflexivity|]. split.
+  - cbn. constructor; [intros [H|[]]; discriminate|constructor; [intros []|constructor]].
+  - split; [vm_compute; discriminate|]. repeat split; vm_compute; reflexivity.
 Qed.
 
 (* ================================================================== terpene filter_incomplete *)
@@ -375,116 +465,76 @@ Proof. intros a b c. unfold M13.start_lt. lia. Qed.
 Lemma hits_of_perm : forall g l l', Permutation l l' -> Permutation (M13.hits_of g l) (M13.hits_of g l').
 Proof. intros g l l' H. unfold M13.hits_of. apply Permutation_map. apply filter_perm. exact H. Qed.
 
-(* same result for every enumeration of the gather_by_query sets, unless two different hits of one gene start at the
-   same position *)
-Lemma terpene_filter_perm_proof : forall t o o', Permutation o o' ->
-  (forall g a b, In (g, a) o -> In (g, b) o -> M13.st a = M13.st b -> a = b) ->
-  terpene_filter_o t o = terpene_filter_o t o'.
+(* same result for every enumeration of the gather_by_query sets - no guard since the repair of
+   terpene_start_tie_set_order (total sort key) *)
+Lemma terpene_filter_perm_proof : forall t o o', Permutation o o' -> terpene_filter_o t o = terpene_filter_o t o'.
 Proof.
-  intros t o o' Hp Hg.
+  intros t o o' Hp.
   assert (E : forall x, In x o <-> In x o').
   { intros x. split; intros Hx; [apply (Permutation_in _ Hp)|apply (Permutation_in _ (Permutation_sym Hp))]; exact Hx. }
-  unfold terpene_filter_o.
+  unfold terpene_filter_o, terpene_filter_with.
   assert (F : forallb (fun gh : Z * M13.hit => M13.ppresent t (M13.prof (snd gh))) o
             = forallb (fun gh : Z * M13.hit => M13.ppresent t (M13.prof (snd gh))) o').
   { apply eq_true_iff_eq. rewrite !forallb_forall. split; intros G x Hx; apply G; apply E; exact Hx. }
   rewrite F. destruct (forallb (fun gh : Z * M13.hit => M13.ppresent t (M13.prof (snd gh))) o'); [|reflexivity].
   rewrite (C13.Proofs.genes_of_ext o o' E). f_equal. f_equal. apply map_ext. intros g. f_equal.
-  unfold terpene_gene. f_equal.
-  apply (sort_by_perm_unique M13.start_lt start_lt_irrefl start_lt_trans).
-  - apply NoDup_Permutation.
-    + apply C13.Proofs.dedupe_NoDup. exact C13.Proofs.hit_eqb_eq.
-    + apply C13.Proofs.dedupe_NoDup. exact C13.Proofs.hit_eqb_eq.
-    + intros x. rewrite !(C13.Proofs.dedupe_In M13.hit_eqb C13.Proofs.hit_eqb_eq).
-      split; apply Permutation_in; [apply hits_of_perm; exact Hp|apply hits_of_perm; apply Permutation_sym; exact Hp].
-  - intros a b Ia Ib H1 H2.
-    apply (proj1 (C13.Proofs.dedupe_In M13.hit_eqb C13.Proofs.hit_eqb_eq _ _)) in Ia.
-    apply (proj1 (C13.Proofs.dedupe_In M13.hit_eqb C13.Proofs.hit_eqb_eq _ _)) in Ib.
-    apply (proj1 (C13.Proofs.hits_of_In _ _ _)) in Ia. apply (proj1 (C13.Proofs.hits_of_In _ _ _)) in Ib.
-    apply (Hg g a b Ia Ib). unfold M13.start_lt in H1, H2. lia.
+  unfold terpene_gene. f_equal. apply C13.Proofs.canonical_ext.
+  intros x. split; apply Permutation_in; [apply hits_of_perm; exact Hp|apply hits_of_perm; apply Permutation_sym; exact Hp].
 Qed.
 
-(* two complete hits of different profiles starting at the same position come out in enumeration order (finding
-   terpene_start_tie_set_order); refine_hmmscan_results (total key since 6f19f05d) gives one result on the same input *)
+(* the former witness of terpene_start_tie_set_order: two complete hits of different profiles starting at the same
+   position came out in enumeration order with the start-only key of the code before the repair; the repaired code
+   gives one result *)
 Definition w_t1 := M13.mkHit 0 5 40 1 20.
 Definition w_t2 := M13.mkHit 1 5 60 1 20.
-Lemma terpene_filter_refuted_proof : exists t o o',
-  Permutation o o' /\ NoDup o /\ terpene_filter_o t o <> terpene_filter_o t o' /\
-  refine_o true t o = refine_o true t o'.
+Lemma terpene_filter_witness_proof :
+  let t := [(1, 30, 0); (1, 50, 0)] in let o := [(0, w_t1); (0, w_t2)] in let o' := [(0, w_t2); (0, w_t1)] in
+  Permutation o o' /\ NoDup o /\ terpene_filter_startkey t o <> terpene_filter_startkey t o' /\
+  terpene_filter_o t o = Ok [(0, [w_t1; w_t2])] /\ terpene_filter_o t o' = Ok [(0, [w_t1; w_t2])].
 Proof.
-  exists [(1, 30, 0); (1, 50, 0)], [(0, w_t1); (0, w_t2)], [(0, w_t2); (0, w_t1)].
-  split; [apply perm_swap|]. split.
+  cbv zeta. split; [apply perm_swap|]. split.
   - constructor; [intros [H|[]]; discriminate|constructor; [intros []|constructor]].
-  - split; [vm_compute; discriminate|vm_compute; reflexivity].
+  - split; [vm_compute; discriminate|split; vm_compute; reflexivity].
 Qed.
 
 (* ================================================================== CDSResults.annotate *)
-Lemma annotate_refuted_proof : exists defs defs',
+(* the former witness of annotate_definition_domains_set_order: two enumerations of the same set of definition domains
+   gave two gene_functions lists before the repair; `for domain in sorted(matching_domains)` gives one *)
+Lemma annotate_witness_proof :
+  let defs := [([114], [[97]; [98]])] in let defs' := [([114], [[98]; [97]])] in
   Forall2 (fun d d' => fst d = fst d' /\ forall x, In x (snd d) <-> In x (snd d')) defs defs' /\
-  annotate_core defs <> annotate_core defs' /\ annotate_core_sorted defs = annotate_core_sorted defs'.
+  annotate_core_unrepaired defs <> annotate_core_unrepaired defs' /\
+  annotate_core defs = [([97], [114]); ([98], [114])] /\ annotate_core defs' = [([97], [114]); ([98], [114])].
 Proof.
-  exists [([114], [[97]; [98]])], [([114], [[98]; [97]])]. split; [|split].
+  cbv zeta. split; [|split; [|split]].
   - constructor; [|constructor]. split; [reflexivity|]. intros x. cbn. tauto.
   - vm_compute. discriminate.
   - vm_compute. reflexivity.
+  - vm_compute. reflexivity.
 Qed.
 
-Lemma annotate_sorted_proof : forall defs defs',
+(* no guard: the CORE gene functions depend on the SETS of definition domains only *)
+Lemma annotate_perm_proof : forall defs defs',
   Forall2 (fun d d' => fst d = fst d' /\ forall x, In x (snd d) <-> In x (snd d')) defs defs' ->
-  annotate_core_sorted defs = annotate_core_sorted defs'.
+  annotate_core defs = annotate_core defs'.
 Proof.
-  intros defs defs' H. unfold annotate_core_sorted. induction H as [|d d' r r' [H1 H2] H IH]; [reflexivity|].
+  intros defs defs' H. unfold annotate_core. induction H as [|d d' r r' [H1 H2] H IH]; [reflexivity|].
   cbn [flat_map]. rewrite IH. rewrite (sorted_set_ext_proof _ _ H2). rewrite H1. reflexivity.
 Qed.
 
-(* with at most one definition domain per cluster type nothing is exposed *)
-Lemma annotate_single_proof : forall defs defs',
-  Forall2 (fun d d' => fst d = fst d' /\ forall x, In x (snd d) <-> In x (snd d')) defs defs' ->
-  Forall (fun d => forall x y, In x (snd d) -> In y (snd d) -> x = y) defs ->
-  annotate_core defs = annotate_core defs'.
-Proof.
-  intros defs defs' H. unfold annotate_core. induction H as [|d d' r r' [H1 H2] H IH]; intros Hs; [reflexivity|].
-  inversion Hs as [|? ? Hd Hr]; subst. cbn [flat_map]. rewrite (IH Hr). rewrite H1. f_equal. f_equal.
-  (* list_of_set of two enumerations of a set with at most one element *)
-  unfold list_of_set.
-  assert (Hone : forall o o' : list (list Z), (forall x, In x o <-> In x o') -> (forall x y, In x o -> In y o -> x = y) ->
-                 C13.Model.dedupe str_eqb o = C13.Model.dedupe str_eqb o').
-  { intros o o' Hoo Huniq.
-    assert (Hn : forall l : list (list Z), (forall x y, In x l -> In y l -> x = y) ->
-                 C13.Model.dedupe str_eqb l = match l with [] => [] | x :: _ => [x] end).
-    { intros l Hl.
-      assert (Hnd : NoDup (C13.Model.dedupe str_eqb l)) by (apply C13.Proofs.dedupe_NoDup; exact str_eqb_eq).
-      assert (Hin : forall x, In x (C13.Model.dedupe str_eqb l) <-> In x l) by (intros x; apply C13.Proofs.dedupe_In; exact str_eqb_eq).
-      destruct l as [|a t].
-      - destruct (C13.Model.dedupe str_eqb []) as [|b u] eqn:E; [reflexivity|]. exfalso. apply (proj1 (Hin b)). left. reflexivity.
-      - destruct (C13.Model.dedupe str_eqb (a :: t)) as [|b u] eqn:E.
-        + exfalso. apply (proj2 (Hin a)). left. reflexivity.
-        + assert (b = a) by (apply Hl; [apply Hin; left; reflexivity|left; reflexivity]). subst b.
-          destruct u as [|c u']; [reflexivity|]. exfalso.
-          assert (c = a) by (apply Hl; [apply Hin; right; left; reflexivity|left; reflexivity]). subst c.
-          inversion Hnd as [|? ? Hna _]; subst. apply Hna. left. reflexivity. }
-    rewrite (Hn o Huniq).
-    assert (Huniq' : forall x y, In x o' -> In y o' -> x = y) by (intros x y Hx Hy; apply Huniq; apply Hoo; assumption).
-    rewrite (Hn o' Huniq').
-    destruct o as [|a t]; destruct o' as [|a' t']; try reflexivity.
-    - exfalso. apply (proj2 (Hoo a')). left. reflexivity.
-    - exfalso. apply (proj1 (Hoo a)). left. reflexivity.
-    - f_equal. apply Huniq; [left; reflexivity|apply Hoo; left; reflexivity]. }
-  apply Hone; assumption.
-Qed.
-
 (* ================================================================== get_unique_protoclusters, origin-crossing branch:
-   the guard of unique_crossing_perm_proof is needed (finding unique_crossing_same_product_set_order) *)
-Lemma unique_crossing_refuted_proof : exists N o o',
-  Permutation o o' /\ NoDup (map uid o) /\
-  (forall a b, In a o -> In b o -> (ucs a, uce a) = (ucs b, uce b) -> a = b) /\
-  map uid (unique_crossing N o) <> map uid (unique_crossing N o').
+   the former witness of unique_crossing_same_product_set_order (same shifted start, length AND product, different cores) *)
+Lemma unique_crossing_witness_proof :
+  let a := mkU 0 900 100 200 0 950 980 in let b := mkU 1 900 100 200 0 20 60 in
+  Permutation [a; b] [b; a] /\ NoDup (map uid [a; b]) /\
+  (forall x y, In x [a; b] -> In y [a; b] -> red_key5 1000 x = red_key5 1000 y -> x = y) /\
+  map uid (unique_crossing_unrepaired 1000 [a; b]) <> map uid (unique_crossing_unrepaired 1000 [b; a]) /\
+  map uid (unique_crossing 1000 [a; b]) = [1; 0] /\ map uid (unique_crossing 1000 [b; a]) = [1; 0].
 Proof.
-  exists 1000, [mkU 0 900 100 200 0 950 980; mkU 1 900 100 200 0 20 60], [mkU 1 900 100 200 0 20 60; mkU 0 900 100 200 0 950 980].
-  split; [apply perm_swap|]. split; [cbn; constructor; [intros [H|[]]; discriminate|constructor; [intros []|constructor]]|].
-  split; [|vm_compute; discriminate].
-  intros a b Ia Ib E. cbn in Ia, Ib.
-  destruct Ia as [<-|[<-|[]]]; destruct Ib as [<-|[<-|[]]]; try reflexivity; vm_compute in E; discriminate.
+  cbv zeta. split; [apply perm_swap|]. split; [cbn; constructor; [intros [H|[]]; discriminate|constructor; [intros []|constructor]]|].
+  split; [|split; [vm_compute; discriminate|split; vm_compute; reflexivity]].
+  intros x y Ix Iy E. cbn in Ix, Iy.
+  destruct Ix as [<-|[<-|[]]]; destruct Iy as [<-|[<-|[]]]; try reflexivity; vm_compute in E; discriminate.
 Qed.
 
 (* ================================================================== stage 3: anchoring genes *)
@@ -596,12 +646,22 @@ Proof.
 Qed.
 
 (* ================================================================== stage 5: get_unique_protoclusters *)
+Lemma lex32_irrefl : forall a, lex32 a a = false.
+Proof. intros [[[x y] z] [u v]]. unfold lex32, eq3, lex3, lex2. cbn [fst snd]. lia. Qed.
+Lemma lex32_trans : forall a b c, lex32 a b = true -> lex32 b c = true -> lex32 a c = true.
+Proof. intros [[[x1 y1] z1] [u1 v1]] [[[x2 y2] z2] [u2 v2]] [[[x3 y3] z3] [u3 v3]]. unfold lex32, eq3, lex3, lex2. cbn [fst snd]. lia. Qed.
+Lemma lex32_total : forall a b, lex32 a b = false -> lex32 b a = false -> a = b.
+Proof.
+  intros [[[x1 y1] z1] [u1 v1]] [[[x2 y2] z2] [u2 v2]]. unfold lex32, eq3, lex3, lex2. cbn [fst snd]. intros H1 H2.
+  assert (x1 = x2 /\ y1 = y2 /\ z1 = z2 /\ u1 = u2 /\ v1 = v2) as [-> [-> [-> [-> ->]]]] by lia. reflexivity.
+Qed.
+
 Lemma unique_crossing_perm_proof : forall N o o', Permutation o o' ->
-  (forall a b, In a o -> In b o -> red_key N a = red_key N b -> a = b) ->
+  (forall a b, In a o -> In b o -> red_key5 N a = red_key5 N b -> a = b) ->
   unique_crossing N o = unique_crossing N o'.
 Proof.
   intros N o o' Hp Hg. unfold unique_crossing, red_lt.
-  apply (sort_by_key_perm (red_key N) lex3 lex3_irrefl lex3_trans lex3_total); assumption.
+  apply (sort_by_key_perm (red_key5 N) lex32 lex32_irrefl lex32_trans lex32_total); assumption.
 Qed.
 
 Lemma unique_crossing_doc_sorted_proof : forall N o, doc_sorted true N (unique_crossing N o) = true.
@@ -609,12 +669,16 @@ Proof.
   intros N o.
   assert (W : wsorted (red_lt N) (unique_crossing N o)).
   { unfold unique_crossing. apply sort_by_wsorted.
-    - intros a. apply lex3_irrefl.
-    - intros a b c. apply lex3_trans. }
+    - intros a. apply lex32_irrefl.
+    - intros a b c. apply lex32_trans. }
   pose proof (wsorted_adjacent (red_lt N) _ W) as H.
   revert H. generalize (unique_crossing N o). induction l as [|a t IH]; intros H; [reflexivity|].
-  destruct t as [|b t']; [reflexivity|]. cbn [doc_sorted]. unfold doc_key_lt. fold (red_lt N b a).
-  apply andb_true_iff in H. destruct H as [H1 H2]. rewrite H1. cbn [andb]. apply IH. exact H2.
+  destruct t as [|b t']; [reflexivity|]. cbn [doc_sorted]. unfold doc_key_lt.
+  apply andb_true_iff in H. destruct H as [H1 H2].
+  assert (D : lex3 (red_key N b) (red_key N a) = false).
+  { apply negb_true_iff in H1. unfold red_lt, lex32, red_key5 in H1. cbn [fst snd] in H1.
+    apply orb_false_iff in H1. destruct H1 as [H1 _]. exact H1. }
+  rewrite D. cbn [negb andb]. apply IH. exact H2.
 Qed.
 
 Definition wf_u (p : uproto) : Prop := ust p < uen p /\ ulen p = uen p - ust p.
@@ -1551,7 +1615,7 @@ Lemma pipeline_partial_proof : forall neighbour table N c nb crossing RN w
   Permutation protos protos' -> (forall x, In x names <-> In x names') -> Permutation notes notes' ->
   Forall simple P -> NoDup (map pid P) -> tie_guard P ->
   tie_neutral P en -> tie_neutral P en' -> linear_or_neutral P w en -> linear_or_neutral P w en' ->
-  (crossing = true -> forall a b, In a protos -> In b protos -> red_key RN a = red_key RN b -> a = b) ->
+  (crossing = true -> forall a b, In a protos -> In b protos -> red_key5 RN a = red_key5 RN b -> a = b) ->
   (crossing = false -> Forall wf_u protos /\
                        forall a b, In a protos -> In b protos -> lin_key a = lin_key b -> upre_key a = upre_key b -> a = b) ->
   refine_o neighbour table hits = refine_o neighbour table hits' /\
